@@ -292,6 +292,21 @@ pub fn lsp_did_change(uri: &str, version: i64, texts: &[&str]) -> Value {
     let changes: Vec<Value> = texts.iter().map(|t| json!({"text": t})).collect();
     json!({"jsonrpc":"2.0","method":"textDocument/didChange","params":{"textDocument":{"uri":uri,"version":version},"contentChanges":changes}})
 }
+pub fn lsp_did_close(uri: &str) -> Value {
+    json!({"jsonrpc": "2.0", "method": "textDocument/didClose", "params": {"textDocument": {"uri": uri}}})
+}
 pub fn lsp_semantic_tokens(id: Value, uri: &str) -> Value {
     json!({"jsonrpc":"2.0","id":id,"method":"textDocument/semanticTokens/full","params":{"textDocument":{"uri":uri}}})
+}
+
+/// name of the i-th file of a generated compilation set.  Some names differ from another one only
+/// in letter case (distinct files on a case-sensitive file system, distinct documents for a
+/// project): a set must never lose a file because its name "equals" another one ignoring case.
+pub fn set_file_name(i: usize) -> String {
+    const NAMES: &[&str] = &["unit.st", "Unit.st", "other.st", "UNIT.st", "Other.st", "unit.ST", "third.st", "OTHER.st"];
+    if i < NAMES.len() {
+        NAMES[i].to_string()
+    } else {
+        format!("f{}.st", i)
+    }
 }
